@@ -399,7 +399,6 @@ func (la *LockAnalysis) sectionOf(instr ssa.Instruction, f *types.Var) ssa.Instr
 
 var _ = token.NoPos
 
-
 // syncOnlyParam: the func-typed parameter idx of fn is only ever called, or handed to the same
 // position of a callee that only calls it (a synchronous callback such as an enumeration visitor).
 func syncOnlyParam(fn *ssa.Function, idx int, seen map[*ssa.Function]bool) bool {
